@@ -1,6 +1,6 @@
 (** C07 -- slicing returns exactly the selected elements, or refuses explicitly. *)
 From Coq Require Import List Arith Lia Bool ZArith Sorted.
-Require Import V.Base.ListAux V.Base.Matrix V.Base.NdArray V.Usid.ToND V.Usid.Slice V.Usid.SliceProof.
+Require Import V.Base.ListAux V.Base.Matrix V.Base.NdArray V.Usid.ToND V.Usid.Slice V.Usid.SliceProof V.Usid.SliceNdProof.
 Import ListNotations.
 
 (** 2-D path: the selected rows are exactly those whose ancillary index along every dimension is in the selection ... *)
@@ -53,11 +53,33 @@ Theorem C07_2d_rejects :
 Proof. exact resolve2d_rejects. Qed.
 Print Assumptions C07_2d_rejects.
 
+(** N-D path, any number of axes, any mixture of integers (negative ones wrap once), slices and at most one index list:
+    the result has the expected shape (an integer removes its axis, a slice / list keeps it with the number of chosen
+    indices) and its element at index j is the element of the view at the index obtained by putting, on every sliced
+    axis, the chosen index back ([expand]); every such index is in bounds. *)
+Theorem C07_nd_slice_elements :
+  forall (A : Type) (d : A) (view : nd A) (sels : list sel) (res : nd A),
+  slice_nd d view sels = Ok res -> length sels <= length (nd_shape view) ->
+  (forall i, i < length sels -> slice_in_range (nth i sels SAbsent) (nth i (nd_shape view) 1)) ->
+  exists rs, length rs = length sels /\
+    (forall i, i < length sels -> resolve_sel (nth i (nd_shape view) 1) (nth i sels SAbsent) = Ok (nth i rs RAll)) /\
+    nd_shape res = result_shape rs 0 (nd_shape view) /\
+    forall j, inbounds j (nd_shape res) ->
+      nd_get d res j = nd_get d view (expand rs 0 j) /\ inbounds (expand rs 0 j) (nd_shape view).
+Proof. exact @slice_nd_elements. Qed.
+Print Assumptions C07_nd_slice_elements.
+
 (** N-D path: an unsupported combination (more than one list index) is refused, never answered with rearranged data *)
 Theorem C07_two_lists_refused : forall (A : Type) (d : A) (v : nd A) (sels : list sel),
   1 < length (filter is_list sels) -> exists e, slice_nd d v sels = Err e.
 Proof. intros A d v sels H. unfold slice_nd. apply Nat.ltb_lt in H. rewrite H. destruct (negb _); eauto. Qed.
 Print Assumptions C07_two_lists_refused.
+
+Example C07_nd_example :
+  let v := mkNd [2; 3; 2] [0; 1; 2; 3; 4; 5; 6; 7; 8; 9; 10; 11] in
+  exists res, slice_nd 0 v [SInt 1; SSlice [0; 2]; SAbsent] = Ok res /\ nd_shape res = [2; 2] /\ nd_data res = [6; 7; 10; 11] /\
+              expand [ROne 1; RMany [0; 2]; RAll] 0 [1; 0] = [1; 2; 0].
+Proof. cbv zeta. eexists. split; [vm_compute; reflexivity|]. repeat split. Qed.
 
 Example C07_example :
   fixup 0 [[1;2];[3;4]] = [[1;2];[3;4]] /\ fixup 0 [[1];[2];[3]] = [[1];[2];[3]] /\ fixup 0 [[1;2;3]] = [[1;2;3]] /\
